@@ -294,15 +294,33 @@ func c26Indexed(dec *a12Dec, st BeState) map[string]bool {
 
 func c26RunScenario(h *H, dec *a12Dec, s *c26Scenario) {
 	// complete run first: number of mutating operations, stdout (which lineages were "emptied")
-	run := func(crashAfter int) (*RecBackend, CmdResult, BeState) {
+	// failAt >= 0: every attempt to write (or clean up) the file that the failAt-th mutating
+	// operation touches fails; all other operations keep working (a fault, not a crash prefix)
+	run := func(crashAfter, failAt int) (*RecBackend, CmdResult, BeState) {
 		be := LoadBackend(s.st)
 		rec := NewRecBackend(be)
 		rec.KeepData = true
 		rec.CrashAfter = crashAfter
+		if failAt >= 0 {
+			var victim *backend.Handle
+			rec.FailOp = func(op string, hd backend.Handle, nth int) error {
+				if op != "save" && op != "remove" {
+					return nil
+				}
+				if victim == nil && nth == failAt+1 {
+					v := hd
+					victim = &v
+				}
+				if victim != nil && hd == *victim {
+					return errInjected
+				}
+				return nil
+			}
+		}
 		res := NewCLI(rec).Run(s.args...)
 		return rec, res, DumpBackend(be)
 	}
-	rec0, res0, _ := run(-1)
+	rec0, res0, _ := run(-1, -1)
 	n := rec0.Mutations()
 	emptied := []string{}
 	for _, line := range strings.Split(res0.Stdout, "\n") {
@@ -319,19 +337,25 @@ func c26RunScenario(h *H, dec *a12Dec, s *c26Scenario) {
 	// `would delete empty snapshot` (dry-run) names no id: nothing is removed there anyway
 	indexed := c26Indexed(dec, s.st)
 	r0chk := NewCLI(LoadBackend(s.st)).Run("check")
-	for k := 0; k <= n; k++ {
+	for kk := 0; kk <= 2*n; kk++ {
+		// kk <= n: crash after kk mutations (kk == n: complete run); kk > n: fault on operation kk-n-1
+		k, mode := kk, "crash"
 		var rec *RecBackend
 		var res CmdResult
 		var after BeState
-		if k == n {
-			rec, res, after = run(-1)
-		} else {
-			rec, res, after = run(k)
+		switch {
+		case kk == n:
+			rec, res, after = run(-1, -1)
+		case kk < n:
+			rec, res, after = run(kk, -1)
+		default:
+			k, mode = kk-n-1, "fail"
+			rec, res, after = run(-1, k)
 		}
 		in := newA12Intern()
 		h.Case(s.cmd)
 		h.Rec("cmd", HexS(strings.Join(s.args, " ")))
-		h.Rec("crash", Itoa(k), Itoa(n))
+		h.Rec("crash", Itoa(k), Itoa(n), mode)
 		// kind of the last mutation that went through (label for the distribution)
 		lastKind := "none"
 		cnt := 0
@@ -371,8 +395,8 @@ func c26RunScenario(h *H, dec *a12Dec, s *c26Scenario) {
 		a12RemoveLocks(cbe)
 		chk := NewCLI(cbe).Run("check")
 		h.Rec("state", "check", B(chk.Err == nil), HexS(firstLine(chk.Stderr)))
-		h.Rec("res", Itoa(res.Exit), B(k == n))
-		h.Rec("labels", append([]string{s.cmd}, s.label...)...)
+		h.Rec("res", Itoa(res.Exit), B(kk == n))
+		h.Rec("labels", append([]string{s.cmd, "mode:" + mode}, s.label...)...)
 		h.End()
 	}
 }
